@@ -12,7 +12,7 @@ EXPLANATION = ("U1 panic-source cone (MIR call graph) from the eight public cons
                "percent-decoded before connecting, a pre-opened Unix stream is accepted and a TCP/invalid one is MismatchedStreamType; the "
                "TCP constructor accepts a pre-opened TCP stream and rejects the others; U4 when a connection timeout is set the future of "
                "the whole TCP constructor (which contains StartTLS and the handshake) is wrapped in tokio::time::timeout with that duration "
-               "and expiry is propagated as an error; U6 every builder method of the settings struct, evaluated on literals in every reachable state of the struct (the states enumerated from the constructors by the builder methods themselves), leaves every other setting reading as before - StartTLS through its getter, the verification setting in the default connector - and every opaque field (timeout, connector, stream) `self`'s own; how the struct keeps its settings (a bool each, bits of a flags byte) is not read (a method that resets another setting drops what was requested before it in the chain). Not decided: unreachable endpoints (OS behaviour); the url crate's parser.")
+               "and expiry is propagated as an error; U6 every builder method of the settings struct, evaluated on literals in every reachable state of the struct (the states enumerated from the constructors by the builder methods themselves), leaves every other setting reading as before - StartTLS through its getter, the verification setting in the default connector - and every opaque field (timeout, connector, stream) `self`'s own; how the struct keeps its settings (a bool each, bits of a flags byte) is not read (a method that resets another setting drops what was requested before it in the chain); U6.request-recorded after set_x(v) every Option-valued setting x (connection timeout, pre-opened stream, the caller's connector / configuration) reads v - the payload its consumer takes out of the field is the setter's argument - from every reachable state, the one in which x was already set included (Option's `&mut self` methods are modelled exactly: `= Some(v)`, replace, insert, mem::replace are the same, get_or_insert keeps the first value and is reported). Not decided: unreachable endpoints (OS behaviour); the url crate's parser.")
 TRUSTED = ['url crate parsing', 'OS connect behaviour', 'rules/triage/C18.tsv']
 UNDECIDED = ['unreachable endpoints (OS)', 'exotic URL strings inside the url crate']
 ASSUMPTIONS = ['code behind the operation issue point / driver loop is driven by server data, not by URL or settings (C11)']
@@ -92,6 +92,49 @@ def check_setters(ctx, f, R):
                 '%s() does not only set its own setting (%s): %s - what was set before it in the builder chain is silently dropped (LdapConnSettings::new().<the other setter>(x).%s(..) behaves as if <the other setter> had never been called)' % (
                     nm, own, '; '.join(lost), nm))
     ctx.floor('U6', 'builder methods of the settings struct evaluated', n, 2)      # without a TLS back end: set_conn_timeout, set_std_stream
+    check_requests_recorded(ctx, f, R)
+
+def check_requests_recorded(ctx, f, R):
+    """U6.request-recorded - "crossed with all settings (StartTLS, pre-opened stream, timeout)": a settings value is whatever a chain
+    of builder calls leaves, and the documented contract of the builder interface is that a setter called again replaces the value.
+    For every Option-valued setting x (connection timeout, pre-opened stream, the caller's connector / configuration): after
+    `set_x(v)` the setting reads v FROM EVERY REACHABLE STATE of the settings - every reachable scalar state, and both cases of
+    x's own field: not yet set, and already set by an earlier call (anchors.ConnSettings: the setter's paths are enumerated, Option's
+    `&mut self` methods modelled exactly, so `= Some(v)`, `replace(v)`, `insert(v)`, `mem::replace(.., Some(v))` are one and the same
+    and `get_or_insert(v)` is not).  What x *reads* is what its consumer takes out of the field (the payload of Some): the duration
+    from_url_with_settings hands to the timeout (U4), the stream new_tcp / new_unix use (U3), the connector of the handshake helper
+    (C17 W4).  (C17 W7.request-recorded states the same for the bool settings.)"""
+    n = 0
+    for role in sorted(R.OPT):
+        if role not in R.field:
+            continue
+        F = R.field[role]
+        for p in sorted(q for q in R.setter_paths if R.role_of_setter.get(q) == role and 'unreadable' not in R.effects.get(q, {})):
+            nm = p.rsplit('::', 1)[-1]
+            ts = [t for t in R.trans if t['setter'] == p and R.feasible(t)]
+            bad, said = [], set()
+            for t in ts:
+                got = R.opt_reading(role, t)
+                if got == ('arg',):
+                    continue
+                case = R.prior_case(t, F)
+                key = (got[0], case)
+                if key in said:
+                    continue
+                said.add(key)
+                state = {'Some': 'with %s already set (%s.%s(a).%s(%s))' % (F, R.where(t['node']), R.setter[role].rsplit('::', 1)[-1], nm, t['argname']),
+                         'None': 'with %s not yet set (%s.%s(%s))' % (F, R.where(t['node']), nm, t['argname']),
+                         None: 'after %s, whatever %s held' % (R.where(t['node']), F)}[case]
+                what = {'earlier': 'the setting keeps the earlier value `a`: the first value set sticks and this call is ignored',
+                        'unset': 'the setting stays unset: the call is ignored',
+                        'as-before': 'the field is left as it was found',
+                        'other': 'the field holds %s' % absx.fmt(got[1])[:60] if len(got) > 1 else ''}[got[0]]
+                bad.append('%s %s' % (state, what))
+            n += 1
+            ctx.add('U6.request-recorded', nm, loc(f.body(p)['body']), bool(ts) and not bad,
+                    '%s(%s) does not make the setting read `%s` from every reachable state of the settings: %s - %s is not what the caller asked for last (%d of %d setter paths over the reachable states)' % (
+                        nm, ts[0]['argname'] if ts else '..', ts[0]['argname'] if ts else '..', '; '.join(bad) or 'the setter has no feasible path', R.OPT_READER[role], len([t for t in ts if R.opt_reading(role, t) != ('arg',)]), len(ts)))
+    ctx.floor('U6.request-recorded', 'Option-valued setters evaluated (timeout, pre-opened stream; connector / configuration with a TLS back end)', n, 2)
 
 def check_mode(ctx, f, B, outs, sc, SETT, R):
     """U2.mode-per-scheme - "ldap URLs connect over TCP ..., ldaps over TLS": which protection a connection gets is decided by the
